@@ -59,10 +59,17 @@ TY = {
     'Literal["a", "b"]': {"cls": "choice", "dflt": ['"a"'], "tok": [["b"], ["a"]], "bad": [["c"]]},
     "N": {"cls": "dc", "dflt": ["N(3, 'q')", "N()"], "tok": [["--x", "4"], ["--y", "zz"], ["--x", "8", "--y", "w"], []],
           "bad": [["--x", "t"]]},
-    None: {"cls": None, "dflt": ["3", '"s"', "None", "2.5", "@7"], "tok": [["tok"], ["5"]], "bad": []},
+    # a config_for()/Partial class used as a parameter type; its instances are functools.partial objects
+    "OptCfg": {"cls": "dc", "dflt": ["OptCfg(lr=0.5)", "OptCfg()", "OptCfg(momentum=0.0)"],
+               "tok": [["--lr", "0.25"], ["--momentum", "0.5"], ["--lr", "2", "--momentum", "3"], []], "bad": [["--lr", "t"]]},
+    # ordinary parameters whose default is a callable *object* (not a plain function): passed as is, never called
+    "Any": {"cls": "plain", "dflt": ["functools.partial(pow, 2)", "3", "functools.partial(int, base=2)"],
+            "tok": [["tok"], ["5"]], "bad": []},
+    None: {"cls": None, "dflt": ["3", '"s"', "None", "2.5", "@7", "functools.partial(pow, 2)"], "tok": [["tok"], ["5"]], "bad": []},
 }
-SINGLE_TOKEN = ["int", "float", "str", "Path", "Color", "Union[int, str]", 'Literal["a", "b"]', None]
-NAMES = ["a", "b", "c", "k", "lr", "my_val", "n_items", "seed", "tag", "out_dir", "w", "q", "beta", "mode", "e", "flag"]
+DC_TYPES = ("N", "OptCfg")
+SINGLE_TOKEN = ["int", "float", "str", "Path", "Color", "Union[int, str]", 'Literal["a", "b"]', None, "Any"]
+NAMES = ["a", "b", "c", "k", "rate", "my_val", "n_items", "seed", "tag", "out_dir", "w", "q", "beta", "mode", "e", "flag"]
 KINDS = ["posOnly", "posOrKw", "kwOnly"]
 
 PRELUDE = '''\
@@ -87,6 +94,17 @@ class N:
 
 
 CALLS = []
+'''
+
+MAIN_PRELUDE = PRELUDE + '''
+from simple_parsing.helpers.partial import config_for
+
+
+def make_opt(lr: float = 0.1, momentum: float = 0.9):
+    return ("opt", lr, momentum)
+
+
+OptCfg = config_for(make_opt)
 '''
 
 # ------------------------------------------------------------------------------------------------
@@ -131,9 +149,19 @@ def temp_module(source: str):
             os.rmdir(_tmproot())     # removed when empty (pool workers do not run atexit handlers)
 
 
+def _cv(v):
+    import functools
+
+    if isinstance(v, functools.partial) and not dataclasses.is_dataclass(v):
+        # a plain functools.partial object: identified by what it wraps (two evaluations of the same literal are equal)
+        return {"t": "partial", "func": getattr(v.func, "__name__", repr(v.func)), "args": [_cv(a) for a in v.args],
+                "kw": [[k, _cv(x)] for k, x in sorted(v.keywords.items())]}
+    return sp.cv(v)       # config_for/Partial instances are dataclasses: {"t":"inst","cls":…,"v":[fields]}
+
+
 def cs(v) -> str:
     """canonical string of a Python value (typed tree, see DESIGN Appendix A)"""
-    return json.dumps(sp.cv(v), sort_keys=True, ensure_ascii=False, separators=(",", ":"))
+    return json.dumps(_cv(v), sort_keys=True, ensure_ascii=False, separators=(",", ":"))
 
 
 # ------------------------------------------------------------------------------------------------
@@ -196,7 +224,7 @@ def main_module_source(c):
     params = c["params"]
     facs, fn_names = factory_defs(params)
     names = [p["name"] for p in params]
-    src = ("from __future__ import annotations\n" if c.get("future") else "") + PRELUDE + "\n" + facs + "\n"
+    src = ("from __future__ import annotations\n" if c.get("future") else "") + MAIN_PRELUDE + "\n" + facs + "\n"
     src += f"def target({sig_source(params, fn_names)}):\n{doc_source(c)}"
     src += "    return {" + ", ".join(f'"{n}": {n}' for n in names) + "}\n\n"
     src += ("@functools.wraps(target)\ndef rec(*args, **kwargs):\n    CALLS.append((args, dict(kwargs)))\n"
@@ -222,7 +250,7 @@ def argv_of(c):
         g = p.get("given")
         if g is None:
             continue
-        if p["ty"] == "N":
+        if p["ty"] in DC_TYPES:
             opts += g["tok"]
         elif p["kind"] == "posOnly":
             pos += g["tok"]
@@ -269,20 +297,21 @@ def gen_params(rng, n=None, allow_bool=True, types=None, pos_types=None):
     kinds = ["posOnly"] * n_po + ["posOrKw"] * n_pk + ["kwOnly"] * n_ko
     n_positional = n_po + n_pk
     first_default = rng.randrange(0, n_positional + 1)    # defaults are a suffix of the positional parameters
-    types = types or [t for t in TY if t != "N"]
-    have_dc = False
+    types = types or [t for t in TY if t not in DC_TYPES]
+    have_dc = set()
     params = []
     for i, (name, kind) in enumerate(zip(names, kinds)):
         if kind == "posOnly":
-            ty = rng.choice(pos_types or (SINGLE_TOKEN * 4 + ["Tuple[int, str]", "N", "Optional[int]", "List[int]", "bool"]))
+            ty = rng.choice(pos_types or (SINGLE_TOKEN * 4 + ["Tuple[int, str]", "N", "OptCfg", "Optional[int]", "List[int]", "bool"]))
         else:
-            ty = rng.choice(types + (["N"] if not have_dc else []))
+            ty = rng.choice(types + [t for t in DC_TYPES if t not in have_dc])
         if ty == "bool" and (not allow_bool or rng.random() < 0.2):
             ty = "int"
-        if ty == "N":
-            if have_dc:
+        if ty in DC_TYPES:
+            if ty in have_dc:
                 ty = "str"
-            have_dc = True
+            else:
+                have_dc.add(ty)
         has_d = (i >= first_default) if i < n_positional else rng.random() < 0.6
         d = rng.choice(TY[ty]["dflt"]) if has_d else None
         if d == "None" and ty in ("int", "bool") and rng.random() < 0.7:
@@ -304,7 +333,7 @@ def give(rng, p, bad=False):
             g = {"tok": [], "form": "neg"}
         elif p["kind"] == "posOnly" and not tok:
             g["tok"] = ["true"]
-    elif p["kind"] != "posOnly" and p["ty"] != "N":
+    elif p["kind"] != "posOnly" and p["ty"] not in DC_TYPES:
         r = rng.random()
         if r < 0.15:
             g["form"] = "short"
@@ -318,15 +347,15 @@ def gen_main_case(rng, malformed=False, **kw):
     c = {"params": params, "future": rng.random() < 0.25, "doc": rng.random() < 0.5, "opts_first": rng.random() < 0.3,
          "extra": [], "other_kw": [], "other_args": []}
     # positional-only: a prefix is supplied, covering at least the required ones
-    po = [p for p in params if p["kind"] == "posOnly" and p["ty"] != "N"]
+    po = [p for p in params if p["kind"] == "posOnly" and p["ty"] not in DC_TYPES]
     n_req = sum(1 for p in po if p["dflt"] is None)
     m = rng.randrange(n_req, len(po) + 1) if po else 0
     for i, p in enumerate(po):
         p["given"] = give(rng, p) if i < m else None
     for p in params:
-        if p["kind"] == "posOnly" and p["ty"] != "N":
+        if p["kind"] == "posOnly" and p["ty"] not in DC_TYPES:
             continue
-        if p["ty"] == "N":
+        if p["ty"] in DC_TYPES:
             p["given"] = give(rng, p) if rng.random() < 0.7 else None
         else:
             p["given"] = give(rng, p) if (p["dflt"] is None or rng.random() < 0.55) else None
@@ -793,14 +822,17 @@ def _setup_outcome(cls):
 
 
 def impl_fields(c):
+    def observe(get_cls):
+        # every step runs code under test (signature -> class, wrapper construction, default factories)
+        r = sp.run_outcome(lambda: (lambda cls: None if cls is None else (_fields_obs(cls), cls))(get_cls()))
+        if r["o"] != "ok" or r["value"] is None:
+            return {"o": "raise", "exc": r.get("exc"), "msg": r.get("msg", "")}
+        fields, cls = r["value"]
+        return {"fields": fields, "setup": _setup_outcome(cls)}
+
     with temp_module(main_module_source(c)) as mod:
         sig = [model_param(c, p, mod) for p in c["params"]]
-        r = sp.run_outcome(lambda: _capture_main_class(mod))
-        if r["o"] != "ok" or r["value"] is None:
-            return {"sig": sig, "main": {"o": "raise", "exc": r.get("exc")}}
-        cls = r["value"]
-        return {"sig": sig, "main": {"fields": _fields_obs(cls), "setup": _setup_outcome(cls)},
-                "plain": {"fields": _fields_obs(mod.Plain), "setup": _setup_outcome(mod.Plain)}}
+        return {"sig": sig, "main": observe(lambda: _capture_main_class(mod)), "plain": observe(lambda: mod.Plain)}
 
 
 def _plain_values(c, inst):
@@ -1093,8 +1125,8 @@ def project(case, obs):
         return obs["out"]
     if op == "call.fields":
         m = obs["main"]
-        if "fields" not in m:
-            return m
+        if "fields" not in m or "fields" not in obs["plain"]:
+            return {"main": m.get("exc", "ok"), "plain": obs["plain"].get("exc", "ok")}
         tag = lambda st: "ok" if st["o"] == "ok" else st["exc"]  # noqa: E731
         return {"fields": m["fields"], "setup": tag(m["setup"]), "plain_fields": obs["plain"]["fields"],
                 "plain_setup": tag(obs["plain"]["setup"])}
@@ -1163,7 +1195,10 @@ def oracle(case, obs):
                 fails.append({"clause": "rejection", "detail": "callable invoked although the command line was rejected"})
     elif op == "call.fields":
         m = obs["main"]
-        if "fields" in m and "plain" in obs:
+        if "fields" not in m and "fields" in obs["plain"]:
+            fails.append({"clause": "all-types", "detail": f"the equivalent dataclass can be wrapped, the class synthesised by main "
+                                                           f"cannot: {m}", "front": m})
+        if "fields" in m and "fields" in obs["plain"]:
             names = [p["name"] for p in c["params"]]
             if sorted(f["name"] for f in m["fields"]) != sorted(names):
                 fails.append({"clause": "fields", "detail": f"fields {[f['name'] for f in m['fields']]} for parameters {names}"})
@@ -1286,7 +1321,9 @@ def tags(case, obs):
         for p in c["params"]:
             t.append(f"kind:{p['kind']}")
             t.append(f"ty:{TY[p['ty']]['cls'] if p['ty'] else 'unannotated'}")
-            t.append("dflt:" + ("none" if p["dflt"] is None else ("func" if p["dflt"].startswith("@") else ("None" if p["dflt"] == "None" else "value"))))
+            t.append("dflt:" + ("none" if p["dflt"] is None else ("func" if p["dflt"].startswith("@") else ("None" if p["dflt"] == "None" else (
+                "partial-object" if p["dflt"].startswith("functools.partial") else (
+                    "config-instance" if p["dflt"].startswith("OptCfg") else "value"))))))
         if op == "call.main":
             m = obs["main"]
             t.append("main:" + (m["o"] if m["o"] != "raise" else "raise:" + str(m["exc"])))
